@@ -21,6 +21,7 @@ type vfFS struct {
 	opened []string // every name passed to Open, in order
 	stats  []string
 	handles []*vfFile
+	readDelay time.Duration // every Read / ReadAt takes this long
 }
 
 type vfInfo struct {
@@ -84,6 +85,12 @@ func (h *vfFile) Read(p []byte) (int, error) {
 		return 0, fs.ErrClosed
 	}
 	h.reads++
+	if d := h.fsys.readDelay; d > 0 {
+		time.Sleep(d)
+		if h.closed > 0 {
+			h.afterClose++ // closed while this read was in progress
+		}
+	}
 	if h.pos >= len(h.e.data) {
 		return 0, io.EOF
 	}
